@@ -50,7 +50,7 @@ CHECKS = {
          "generated start e-graphs x rule subsets x iteration / node limits (absolute, and relative to the start size) x failing hooks; one stage whose e-node count grows and then shrinks by congruence; a fixed family in which the time limit expires inside an iteration (slow searcher)",
          "TimeLimit never asserted about"),
  "C16": ("reference canonicaliser on a model AST + algebraic shape laws + occurrence partition + syntax round-trip; exhaustive over small slot assignments, random beyond",
-         "all node variants of seven derived languages (incl. 10-argument operators) with repeated and shadowing names, under five spellings incl. one that numbers a node's names $0,$1,.. by first occurrence; payload values with whitespace in the syntax round trip",
+         "all node variants of seven derived languages (incl. 10-argument operators) with repeated and shadowing names, under seven spellings incl. ones that number a node's names $0,$1,.. by first occurrence (purely numeric, or mixed with fresh-kind and named slots); payload values with whitespace in the syntax round trip",
          "child invocations are bijective maps"),
  "C17": ("model-based stateful testing: name<->slot model over generated sequences of fresh / numeric / named / print+parse; metamorphic for the consequence clause: the matcher's validity oracle with pattern slots spelled like existing class parameter slots, judged only if the same case passes with ordinary names",
          "freshness and injectivity of names against a model map, in a fresh thread per case (short mixed sequences, and 10-120 / 600 distinct ordinary names with repeated mentions); no capture of user slots that coincide with invented ones",
